@@ -36,6 +36,7 @@ func (p *Sink) Run() {
 		go func() {
 			for ip := range p.in().Chan {
 				Debug.Printf("Got file in sink: %s\n", ip.Path())
+				vhook("sink.recv", "path", ip.Path())
 			}
 			merged <- 1
 		}()
@@ -44,6 +45,7 @@ func (p *Sink) Run() {
 		go func() {
 			for param := range p.paramIn().Chan {
 				Debug.Printf("Got param in sink: %s\n", param)
+				vhook("sink.recvp", "val", param)
 			}
 			merged <- 1
 		}()
@@ -54,6 +56,7 @@ func (p *Sink) Run() {
 	if p.paramIn().Ready() {
 		<-merged
 	}
+	vhook("sink.end")
 	close(merged)
 	Debug.Printf("Caught up everything in sink")
 }
